@@ -140,3 +140,23 @@ Example C04_hw_nonvacuous :
   | Err _ => false
   end = true.
 Proof. vm_compute. reflexivity. Qed.
+
+(* Part 5: the closed corollary for the common case -- any two different interfaces on local (Eject) ports of the
+   array reach each other.  `on_local x i j` says only that the two link edges between x and router (i,j) name
+   direction 4 at the router end and that x sends on that link; the slot and compatibility hypotheses of Part 4
+   are derived (dir_in_slot / dir_out_slot; two interfaces cannot share the local port of one router). *)
+Theorem C04_hw_local_to_local :
+  forall d g c rd mm nn sp ri n nt xb yb ab ox oy,
+    build d = Ok g -> compile d g = Ok c -> d_algo d = XY ->
+    d_rts d = [rd] -> rt_array rd = Some [mm; nn] -> rt_tree rd = None -> rt_auto rd = true ->
+    net_ok d nt -> gen_routing_info sp c = Ok ri -> emit c ri = Ok n -> chk_C05 n = [] ->
+    ri_xy ri = Some (xb, (yb, (ab, (ox, oy)))) ->
+    forall s0 t a b tx ty, In s0 (c_nis c) -> In t (c_nis c) -> cn_name s0 <> cn_name t ->
+      on_local g rd mm nn nt s0 a b -> on_local g rd mm nn nt t tx ty ->
+      t_out (send n nt (emit_ni d (ri_offset ri) s0) (HXY (tx - ox) (ty - oy) 0)) = Delivered (cn_name t) (HXY (tx - ox) (ty - oy) 0).
+Proof.
+  intros d g c rd mm nn sp ri n nt xb yb ab ox oy Hb Hc Ha Hrts Harr Htree Hauto Hnt Hri He Hchk Hxy.
+  exact (xy_send_local d g c rd mm nn Hb Hc Ha Hrts Harr Htree Hauto sp ri n nt Hnt Hri He
+           (fun l Hl _ => proj2 (chk_C05_sound n Hchk) l Hl) xb yb ab ox oy Hxy).
+Qed.
+Print Assumptions C04_hw_local_to_local.
